@@ -116,6 +116,7 @@ Definition lower_alpha (c : ascii) : bool :=
   let n := N_of_ascii c in ((97 <=? n) && (n <=? 122))%N.
 Definition is_digit (c : ascii) : bool :=
   let n := N_of_ascii c in ((48 <=? n) && (n <=? 57))%N.
+Definition dec_of (l : bytes) : N := fold_left (fun a c => (a * 10 + (N_of_ascii c - 48))%N) l 0%N.
 Definition simple_label (l : bytes) : bool :=
   match l with
   | c :: _ => lower_alnum c && forallb (fun x => lower_alnum x || Ascii.eqb x "-") l
@@ -128,11 +129,23 @@ Definition simple_host (h : bytes) : bool :=
   && existsb lower_alpha (last labels [])
   && negb (bytes_eqb h (bs "localhost")).
 Definition simple_port (p : bytes) : bool :=
-  (List.length p =? 4)%nat && forallb is_digit p && negb (prefixb (bs "0") p).
+  ((List.length p =? 4)%nat || (List.length p =? 5)%nat) && forallb is_digit p
+  && negb (prefixb (bs "0") p) && (dec_of p <=? 65535)%N.
+(* a canonical dotted quad other than 127.0.0.1 (the local origin of the htmlarch driver) *)
+Definition quad_part (l : bytes) : bool :=
+  match l with
+  | [] => false
+  | [c] => is_digit c
+  | c :: _ => negb (Ascii.eqb c "0") && forallb is_digit l && (List.length l <=? 3)%nat
+              && (dec_of l <=? 255)%N
+  end.
+Definition ipv4_host (h : bytes) : bool :=
+  let labels := split_on "." h in
+  (List.length labels =? 4)%nat && forallb quad_part labels && negb (bytes_eqb h (bs "127.0.0.1")).
 Definition simple_auth (a : bytes) : bool :=
   match split_on ":" a with
-  | [h] => simple_host h
-  | [h; p] => simple_host h && simple_port p
+  | [h] => simple_host h || ipv4_host h
+  | [h; p] => (simple_host h || ipv4_host h) && simple_port p
   | _ => false
   end.
 Definition simple_scheme (s : bytes) : bool := bytes_eqb s (bs "http") || bytes_eqb s (bs "https").
